@@ -495,3 +495,16 @@ fire("c08-vmap-resolve-axes-negated", "C08", B + "jax_transforms.py",
 fire("c08-coupling-conditioner-out-size", "C08", B + "coupling.py",
      "conditioner_output_size = num_params * (dim - untransformed_dim)",
      "conditioner_output_size = num_params * (dim + untransformed_dim)", "C08.shape")
+fire("c07-spline-initial-derivatives-not-one", "C07", B + "rational_quadratic_spline.py",
+     "jnp.full(knots + 2, jnp.log(jnp.exp(1 - min_derivative) - 1)),",
+     "jnp.full(knots + 2, jnp.log(jnp.exp(1 + min_derivative) - 1)),", "C07.spline")
+fire("c07-spline-scalar-interval-not-symmetric", "C07", B + "rational_quadratic_spline.py",
+     "interval = interval if isinstance(interval, tuple) else (-interval, interval)",
+     "interval = interval if isinstance(interval, tuple) else (interval, interval)", "C07.spline")
+silent("c07-benign-spline-raw-knots-ones", "C07", B + "rational_quadratic_spline.py",
+       "self.y_pos = wrappers.Lambda(pos_parameterization, jnp.zeros(knots))",
+       "self.y_pos = wrappers.Lambda(pos_parameterization, jnp.ones(knots))")
+fire("c11-planar-slope-boundary-accepted", "C11", B + "planar.py",
+     "            if negative_slope <= 0:", "            if negative_slope < 0:", "C11.guard")
+fire("c08-coupling-shape-never-assigned", "C08", B + "coupling.py",
+     "        self.shape = (dim,)", "        self.cond_shape = (dim,)", "C08.shape")
